@@ -2,6 +2,7 @@ package main
 
 import (
 	"fmt"
+	"golang.org/x/tools/go/ssa"
 	"os"
 	"regexp"
 	"sort"
@@ -157,4 +158,23 @@ func runCoverageSurvey() {
 		}
 	}
 	fmt.Println("partial coordinate readers:", n)
+}
+
+// runGuardsDump prints the guards facet of the functions whose key matches re (debug tool).
+func runGuardsDump(pattern string) {
+	p, err := Load(K1)
+	if err != nil {
+		fmt.Println(err)
+		return
+	}
+	re := regexp.MustCompile(pattern)
+	for _, fn := range p.RepoFuncs() {
+		if !re.MatchString(funcKey(fn)) {
+			continue
+		}
+		fmt.Println(funcKey(fn))
+		for _, k := range sortedKeys(guardedOps(fn, func(*ssa.Function) bool { return false })) {
+			fmt.Println("   ", k)
+		}
+	}
 }
